@@ -143,7 +143,7 @@ def classify(stderr, closed, flags):
     codes = re.findall(r"error\[(E\d+)\]", stderr)
     code = codes[0] if codes else "E?"
     why = "other"
-    newtype = "new_type" in " ".join(flags)
+    newtype = bool(re.search(r"new[-_]type", " ".join(flags)))
     if "E0587" in codes or "E0588" in codes:
         code, why = ("E0588" if "E0588" in codes else "E0587"), "packed-align"
     elif "E0133" in codes:
@@ -177,6 +177,13 @@ def classify(stderr, closed, flags):
         why = "newtype-alias-cast"
     elif code == "E0423" and re.search(r"expected function, found (?:builtin type|type alias)", stderr):
         why = "newtype-alias-constant"
+    elif code == "E0308" and newtype and not [c for c in codes if c != "E0308"] and all(
+            "arguments to this struct are incorrect" in blk or
+            (lambda m: bool(m) and m.group(1) != m.group(2))(re.search(r"pub const \w+: (\w+) = [^\n]*\n[^\n]*expected `(\w+)`, found", blk))
+            for blk in re.split(r"(?m)^(?=error\[E0308\])", stderr) if blk.startswith("error[E0308]")):
+        # (the second form: the constant's declared type is a plain alias of a new-type alias; the value is not wrapped at all)
+        # a constant of a typedef OF A TYPEDEF: wrapped once, `outer_t(2)`, where the field of outer_t is inner_t
+        why = "newtype-alias-chain-constant"
     elif code == "E?" and "error:" in stderr:
         m = re.search(r"^error: (.*)$", stderr, re.M)
         why = re.sub(r"[^A-Za-z]+", "-", m.group(1) if m else "")[:40].strip("-")
@@ -233,6 +240,24 @@ def run(ck):
         for nm, text in HELPERS:
             # one helper type alone inside a namespace, with namespaces enabled: its definition must still reach the root module
             cases.append(("cpp-helper:" + nm, "namespace outer_%s { namespace inner {\n%s\n} }\nint unrelated(int);\n" % (nm, text), True))
+        # alias styles x every role a typedef name can have (constant of the type, member, parameter, result, pointer target, array element,
+        # chain of typedefs, typedef of an enum / struct / function pointer): user typedef names only (the <stdint.h> names are the known
+        # class newtype-alias-constant)
+        ALIAS_H = ("typedef unsigned int handle_t;\nstatic const handle_t INVALID_HANDLE = 0;\nstatic const handle_t MAX_HANDLE = 4294967295u;\n"
+                   "typedef float ratio_t;\nstatic const ratio_t HALF = 0.5f;\ntypedef handle_t handle2_t;\nstatic const handle2_t SECOND = 2;\n"
+                   "typedef long long big_t;\nstatic const big_t NEG = -5;\ntypedef char ch_t;\nstatic const ch_t LETTER = 'x';\n"
+                   "enum color { RED, GREEN = 7 };\ntypedef enum color color_t;\nstruct pt { int x; };\ntypedef struct pt pt_t;\ntypedef int (*cb_t)(handle_t);\n"
+                   "struct session { handle_t h; ratio_t r; handle2_t h2[3]; const handle_t *ph; color_t c; pt_t p; cb_t cb; };\n"
+                   "handle_t open_session(struct session *s, handle2_t h, ratio_t r, color_t c, pt_t p, cb_t cb);\nextern handle_t last_handle;\n")
+        fixed = {}
+        for style in ("type_alias", "new_type", "new_type_deref"):
+            for extra in ([], ["--with-derive-default", "--with-derive-partialeq", "--with-derive-hash"], ["--no-layout-tests", "--use-core"]):
+                fixed[len(cases)] = ["--default-alias-style", style, "--rust-edition", "2021"] + extra
+                cases.append(("alias-styles", ALIAS_H, False))
+        for opt in ("--new-type-alias", "--new-type-alias-deref", "--normal-alias"):
+            for rx in ("handle_t", "handle.*|ratio_t", ".*_t"):
+                fixed[len(cases)] = [opt, rx, "--rust-edition", "2021"] + (["--default-alias-style", "new_type"] if opt == "--normal-alias" else [])
+                cases.append(("alias-styles", ALIAS_H, False))
         for i in range(N // 2):
             gph = c07mod.Graph(r, r.choice([3, 5, 8]))
             cases.append(("cpp-graphs", gph.render(gph.orders(1)[0]), True))
@@ -253,6 +278,8 @@ def run(ck):
             fl, ed, nightly, closed = option_set(r, cpp)
             if fam.startswith("cpp-helper:"):
                 fl, ed, closed = ["--enable-cxx-namespaces", "--rust-edition", "2021"], "2021", True
+            if k in fixed:
+                fl, ed, closed = fixed[k], "2021", True
             jobs.append((k, fam, hdr, cpp, fl, ed, closed, None))
         for k, (h, m) in enumerate(muts):
             hfl, cl = c12mod.header_flags(h)
